@@ -361,17 +361,56 @@ fn e2e_status_case(t: &mut Tape, w: &Worker) -> CaseResult {
         v.check(p);
     }
     v.check(&word);
+    // the same word a second time on the same link: legal words lead back to the state that expects the type
+    // (a verdict must not depend on whether an identical word was seen before)
+    let cont_tdh = tdh(&TdhF { trigger_type: 1, internal: true, no_data: false, continuation: true, bc: 0, orbit: 0 });
+    let done_tdt = tdt(0, 0, true, false, false);
+    let good_ddw0 = ddw0(0, false, false, 0);
+    let bridge: Vec<Word> = match sw {
+        SW::Ihw => vec![nodata_tdh, good_ddw0],
+        SW::Tdh => {
+            if tdh_fields(&word).no_data {
+                vec![good_ddw0, ihw(1)]
+            } else {
+                vec![done_tdt, good_ddw0, ihw(1)]
+            }
+        }
+        SW::Tdt => {
+            if word[8] & 1 == 1 {
+                vec![good_ddw0, ihw(1), good_tdh]
+            } else {
+                vec![ihw(1), cont_tdh]
+            }
+        }
+        SW::Ddw0 => vec![ihw(1), nodata_tdh],
+    };
+    for b in &bridge {
+        v.check(b);
+    }
+    v.check(&word);
     drop(v);
     let off = 64 + 10 * prefix.len() as u64;
+    let off2 = off + 10 * (1 + bridge.len() as u64);
     let mut got_code = false;
+    let mut got_again = false;
     while let Ok(s) = rx.try_recv() {
         if let StatType::Error(e) = s {
             if e.starts_with(&format!("{off:#X}: [E{}]", sw.code())) {
                 got_code = true;
             }
+            if e.starts_with(&format!("{off2:#X}: [E{}]", sw.code())) {
+                got_again = true;
+            }
         }
     }
     let want = sw.ref_fails(&word);
+    if got_code == want && got_again != want {
+        return Err(Fail::new(
+            format!("C11:{sw:?}:e2e-second-occurrence-{}", if want { "not-reported" } else { "reported-wrongly" }),
+            format!("{sw:?} [{}] a second time on the same link (after {} legal words): E{} reported = {got_again}, documented rules say {want}", word_hex(&word), bridge.len(), sw.code()),
+            json!({"word_type": format!("{sw:?}"), "word": word_hex(&word), "first_offset": off, "second_offset": off2}),
+        ));
+    }
     if got_code != want {
         return Err(Fail::new(
             format!("C11:{sw:?}:e2e-{}", if want { "not-reported" } else { "reported-wrongly" }),
